@@ -148,6 +148,12 @@ def get_all_rules(rules_path=None, match_mode='first_match'):
     """
     global _cached_engine, _cached_engine_path
 
+    # Forget the engine of a previously loaded .rules file: normalize_merchant()
+    # consults the cache before its rules argument, so a stale engine would keep
+    # classifying with the old rules after a CSV file (or nothing) is loaded.
+    _cached_engine = None
+    _cached_engine_path = None
+
     user_rules_with_source = []
     if rules_path:
         # Check if it's the new .rules format
